@@ -1,2 +1,87 @@
-(** C09 — placeholder until Wal/Proofs.v lands; see below *)
-From LS Require Import Wal.Reader Wal.Sqlite.
+(** C09 — Only frames SQLite itself treats as committed are ever replicated.
+
+    Model: Wal/Reader.v (wal_reader.go).  Specification: Wal/Sqlite.v (wal.c).
+    Every statement quantifies over ALL byte strings [w] (no bound on length or
+    number of frames).  The input class of the property excludes (a) page sizes
+    SQLite itself rejects and (b) salt- and checksum-valid frames carrying page
+    number 0 (SQLite stops there, litestream reads on and the LTX encoder then
+    rejects page 0); both guards are explicit hypotheses. *)
+From Coq Require Import List NArith Bool.
+From LS Require Import Base.Bytes Base.PMap Wal.Reader Wal.Sqlite Wal.Proofs Wal.Examples.
+Import ListNotations.
+Open Scope N_scope.
+
+(** PageMap over the whole file returns exactly SQLite's recovered view: page
+    [pg] is mapped iff SQLite would serve it from the WAL (latest frame at or
+    before the last valid commit frame, and pg <= committed database size), to
+    that frame's offset; the commit value is SQLite's database size. *)
+Theorem pagemap_is_sqlite_recovery : forall w r,
+  read_header w = HdrOk r -> is_pow2_in_range (r_ps r) = true ->
+  no_pgno0 (ls_valid_prefix (r_bo r) (r_s1 r) (r_s2 r) (r_c1 r, r_c2 r) (wal_frames (r_ps r) w)) ->
+  exists s, sq_recover w = Some s /\
+    let p := page_map (wal_frames (r_ps r) w) r 0 in
+    (forall pg, pm_get pg (pr_map p) = option_map (frame_offset (r_ps r)) (sq_visible s pg)) /\
+    (pr_map p <> [] -> pr_commit p = sq_nPage s) /\
+    (pr_map p = [] -> pr_commit p = 0 /\ pr_end p = 0) /\
+    pr_limited p = false.
+Proof. exact pagemap_is_sqlite_recovery_lemma. Qed.
+Print Assumptions pagemap_is_sqlite_recovery.
+
+(** Nothing at or after the first invalid frame — indeed nothing after the last
+    valid commit frame — is in the map; the returned end offset never passes
+    that commit frame, covers every mapped frame, and equals the end of the
+    commit frame whenever that frame's own page is within the database size
+    (always so for WALs SQLite wrote; otherwise the end is smaller and the next
+    sync re-reads, never skips).  For any reader position. *)
+Theorem pagemap_nothing_after_invalid : forall fs r,
+  let fsz := frame_size (r_ps r) in
+  let vp := ls_valid_prefix (r_bo r) (r_s1 r) (r_s2 r) (r_c1 r, r_c2 r)
+                            (skipn (N.to_nat (r_frameN r)) fs) in
+  let p := page_map fs r 0 in
+  let mx := fst (mxr vp) in
+  pr_map p <> [] ->
+  pr_end p <= off_of (foff r) fsz mx /\
+  off_of (foff r) fsz mx <= off_of (foff r) fsz (length vp) /\
+  (forall pg off, pm_get pg (pr_map p) = Some off -> off + fsz <= pr_end p) /\
+  (forall pre pgl, firstn mx vp = pre ++ [(pgl, snd (mxr vp))] -> pgl <= snd (mxr vp) ->
+     pr_end p = off_of (foff r) fsz mx).
+Proof. exact pagemap_end_bounds_lemma. Qed.
+Print Assumptions pagemap_nothing_after_invalid.
+
+(** Appending any frames without a commit marker (valid or garbage) changes nothing. *)
+Theorem pagemap_uncommitted_tail_ignored : forall fs tail r,
+  Forall (fun f => be32 f 4 = 0) tail ->
+  (N.to_nat (r_frameN r) <= length fs)%nat ->
+  let p := page_map fs r 0 in
+  let p' := page_map (fs ++ tail) r 0 in
+  pr_map p' = pr_map p /\ pr_end p' = pr_end p /\ pr_commit p' = pr_commit p /\
+  pr_limited p' = pr_limited p.
+Proof. exact pagemap_uncommitted_tail_ignored_lemma. Qed.
+Print Assumptions pagemap_uncommitted_tail_ignored.
+
+(** litestream reads a header only if SQLite accepts it (same fields), and
+    conversely except for page sizes SQLite does not support. *)
+Theorem header_accept_eq_sqlite : forall w bo ps s1 s2 c1 c2,
+  sq_read_header w = SqHdrOk bo ps s1 s2 c1 c2 ->
+  read_header w = HdrOk (mkRd 0 bo ps (be32 w 12) s1 s2 c1 c2).
+Proof. exact header_sqlite_to_reader. Qed.
+Print Assumptions header_accept_eq_sqlite.
+
+Theorem header_reject_eq_sqlite : forall w,
+  sq_read_header w = SqHdrIgnored \/ sq_read_header w = SqHdrCantOpen ->
+  (exists r, read_header w = HdrOk r /\ is_pow2_in_range (r_ps r) = false)
+  \/ read_header w = HdrEOF \/ read_header w = HdrErr.
+Proof. exact header_reject. Qed.
+Print Assumptions header_reject_eq_sqlite.
+
+(** Resuming at the end of frame k (k >= 1) of a chain that verifies from the
+    header yields exactly the state of the sequential reader after k frames —
+    same position, salts and running checksum — hence every later read, page
+    map and end offset coincide with the sequential ones. *)
+Theorem resume_equiv : forall w r0 k rk,
+  read_header w = HdrOk r0 ->
+  seq_read r0 (wal_frames (r_ps r0) w) (S k) = Some rk ->
+  new_reader_with_offset w (WALHeaderSize + N.of_nat (S k) * frame_size (r_ps r0))
+                         (r_s1 r0) (r_s2 r0) = OffOk rk.
+Proof. exact resume_equiv_lemma. Qed.
+Print Assumptions resume_equiv.
